@@ -63,6 +63,12 @@ def ref_fp_decode(frames):
     return sid, data[:ln]
 
 
+def own_addr(src0, i):
+    """SetMode(mode, src0): the address device i starts with (successive addresses from a valid source wrap to 0 after 251)"""
+    s = src0 + i
+    return s - 252 if (src0 <= 251 and s > 251) else s & 255
+
+
 def parse_case(line):
     cfgs, opss = line.split('|', 1)
     cfg = {}
